@@ -15,15 +15,15 @@ CHECK = {
             "source interruptions of the decoder: -EAGAIN/-EINTR at every source-call position, and every two positions (also back to back, all four code combinations), "
             "x {rfc1055_context_init + octet drivers, static initialiser + chunk drivers}; "
             "encoder sink answer scripts: every placement of one and of two deviations from 'takes everything' over the first 2n+3 sink calls, deviations "
-            "{short write (1 of several), zero-length return to a write of several octets, -EAGAIN, -EINTR, -EIO}, octet and chunk sinks, plus a chunk sink that accepts up to the next "
+            "{short write (1 of several), zero-length return to a write of several octets, -EAGAIN, -EINTR, -EIO, -ENODATA (a hard error like -EIO whose code is the encoder's own end-of-payload sentinel)}, octet and chunk sinks, plus a chunk sink that accepts up to the next "
             "multiple of b octets for b = 1..8 (oracle: a negative result is one of the codes the sink answered in that execution, any of them when it answered several; "
-            "after an -EIO answer success is not accepted; success = a complete encoding reached the sink); "
+            "after an -EIO/-ENODATA answer success is not accepted; success = a complete encoding reached the sink); "
             "RFC1055_WORST_CASE/_CLASSIC/_WITHSOF for every n <= 1100 and for n = 2^k-2..2^k+2, k = 1..62, as size_t and uint64_t, plain and as an expression argument, as long as n <= SIZE_MAX/4 "
             "(lengths with headroom: a conservative macro wraps before 2n+2 does); "
             "the quantifier's 'random full-alphabet payloads up to 1 KiB' is replaced by exhaustive structured families "
             "(ESC followed by each of the 256 octet values, all 65536 octet pairs, constant fills of all 256 values, ramps from all 256 starts, class cycles of every length 0..1024); "
             "E-STATE: from every reachable context (the whole RFC1055Context image as the library leaves it on a zeroed block, whatever members it has) every stream up to the bound is decoded to exhaustion, "
-            "fault-free and with one driver failure (source -EAGAIN, source -EIO, sink -EIO) at every call position followed by continued use; the contexts left behind by failures are search nodes too; "
+            "fault-free and with one driver failure (source -EAGAIN; source or sink -EIO, -ENODATA, -EILSEQ) at every call position followed by continued use; the contexts left behind by failures are search nodes too; "
             "every reachable context is also handed to rfc1055_encode for every payload <= 2 (complete encoding in the context's mode) and to rfc1055_context_init in both modes (history of initialisations: the result is a node that is owed what an initial context is owed); "
             "if more than 64 context images become known the image has no fixpoint within the cap (e.g. a context that counts what it decoded): no further image is recorded, the node in hand is finished, "
             "no further node is expanded, the interruption pass covers the expanded nodes only, the cap is recorded (exhaustive = false) and the run ends within seconds. "
@@ -38,7 +38,9 @@ CHECK = {
         "except after a decode call that returned the -EAGAIN/-EINTR its source answered: that call is an interruption (the failing source call consumed nothing, the stream is the same octet string), "
         "the caller keeps the sink and calls again, and the interrupted call is folded into its successor before the log is judged like a fault-free one "
         "(clause C12/source-interruption-transparent; a decoder that asks the source again by itself instead of returning the code is accepted too)",
-        "after a hard source error (-EIO/-EPIPE) and after any sink error during decode the statement promises no more than behind a corrupted prefix: the code comes back unchanged, "
+        "'source or sink errors' = any negative answer of a driver; the statement names no code, so the alphabet is every errno value plus negative values outside the errno table "
+        "(an implementation keeping the code in a narrower type, mapping unknown codes, or taking a driver's -ENODATA/-EILSEQ for its own sentinel does not return it unchanged)",
+        "after a hard source error (any code but -EAGAIN/-EINTR; -ENODATA in the middle of a stream and -EILSEQ included) and after any sink error during decode the statement promises no more than behind a corrupted prefix: the code comes back unchanged, "
         "and the resynchronisation sentences are applied to the delimiters / cut positions behind the point of failure only (the octet a failing sink refused may be lost)",
         "source drivers answer 1 octet per call or a negative code. Zero-length returns are scripted only as a chunk sink's answer to a write of several octets "
         "(the endpoint contract: 'will cause the system to retry'); what a 0 from a single-octet source_get_octet/sink_put_octet call means to rfc1055 is not decided by the statement "
@@ -69,6 +71,7 @@ CHECK = {
                 "resync-after-invalid-escape", "resync-garbage-with-delimiter", "resync-garbage-without-delimiter",
                 "resync-no-garbage", "resync-nothing-owed",
                 "encode-sink-error", "encode-source-error", "decode-sink-error", "decode-source-error",
+                "encode-sink-error-alphabet", "encode-source-error-alphabet", "decode-sink-error-alphabet", "decode-source-error-alphabet",
                 "encode-sink-interrupted", "encode-source-interrupted", "decode-sink-interrupted",
                 "interrupt-at-frame-boundary", "interrupt-inside-frame", "interrupt-inside-escape",
                 "interrupt-unframed", "interrupt-at-end-of-stream", "interrupt-twice",
@@ -80,7 +83,8 @@ CHECK = {
             "name": "c12_slip_ctx", "src": "harness/c12_slip.c", "shape": "estate", "lib": _LIB,
             "cflags": ["-DC12_ESTATE"], "shards": 1, "min_outcomes": 4,
             "require_outcomes": {"any": ["initial-context", "initial-context-source-interrupted",
-                                         "initial-context-source-error", "initial-context-sink-error"]},
+                                         "initial-context-source-error", "initial-context-sink-error",
+                                         "initial-context-source-sentinel-code", "initial-context-sink-sentinel-code"]},
         },
     ],
 }
